@@ -636,6 +636,11 @@ func (h *c08hist) genOp() (ref.Instr, bool) {
 	if h.allowExpand {
 		nops = 14
 	}
+	if r.Intn(5) == 0 { // every remaining differentiable operation of the library takes part in histories too
+		if in, ok := h.wideOp(x, same); ok {
+			return in, true
+		}
+	}
 	switch r.Intn(nops) {
 	case 12, 13: // a binary operation over two existing tensors of different, broadcast-compatible shapes (implicit expansion)
 		var c []int
@@ -773,6 +778,84 @@ func (h *c08hist) genOp() (ref.Instr, bool) {
 		}
 		return ref.Instr{Op: "sin", In: []int{x}}, true
 	}
+}
+
+// wideOp draws from the differentiable operations the main table above does not use, each at a point of its
+// domain where it is differentiable and well-conditioned; ok is false when the chosen one does not fit tensor x.
+func (h *c08hist) wideOp(x int, same func() int) (ref.Instr, bool) {
+	r := h.k.Rng
+	v := h.nodes[x].val
+	rank := len(v.Shape)
+	mx, mn := maxAbs(v), math.Inf(1)
+	allPos := true
+	for _, e := range v.Data {
+		mn = math.Min(mn, math.Abs(e))
+		allPos = allPos && e > 0.2
+	}
+	un := func(op string, ok bool) (ref.Instr, bool) { return ref.Instr{Op: op, In: []int{x}}, ok }
+	switch r.Intn(16) {
+	case 0:
+		return un("tan", mx < 1.2)
+	case 1:
+		return un("sinh", mx < 3)
+	case 2:
+		return un("cosh", mx < 3)
+	case 3:
+		return un("log", allPos && mx < 50)
+	case 4:
+		return ref.Instr{Op: "pow", In: []int{x}, F: 3}, mx < 3
+	case 5:
+		return ref.Instr{Op: "pow", In: []int{x}, F: -1}, mn > 0.2
+	case 6:
+		return ref.Instr{Op: "pow", In: []int{x}, F: 0.5}, allPos && mx < 50
+	case 7:
+		y := same()
+		for _, e := range h.nodes[y].val.Data {
+			if math.Abs(e) < 0.2 {
+				return ref.Instr{}, false
+			}
+		}
+		return ref.Instr{Op: "div", In: []int{x, y}}, mx < 20
+	case 8:
+		for d, sz := range v.Shape {
+			if sz == 1 {
+				return ref.Instr{Op: "squeeze", In: []int{x}, Dim: d}, true
+			}
+		}
+		return ref.Instr{Op: "unsqueeze", In: []int{x}, Dim: r.Intn(rank + 1)}, true
+	case 9:
+		if rank >= 2 && v.Shape[rank-1] == v.Shape[rank-2] && mx < 10 {
+			y := same()
+			return ref.Instr{Op: "matmul", In: []int{x, y}}, maxAbs(h.nodes[y].val) < 10
+		}
+		return ref.Instr{}, false
+	case 10:
+		if rank >= 1 {
+			dim := r.Intn(rank)
+			return ref.Instr{Op: []string{"maxalong", "minalong"}[r.Intn(2)], In: []int{x}, Dim: dim}, fibresSeparated(v, dim, 1e-2)
+		}
+	case 11:
+		if rank >= 1 {
+			return ref.Instr{Op: "avgalong", In: []int{x}, Dim: r.Intn(rank)}, true
+		}
+	case 12:
+		return ref.Instr{Op: "leakyrelu", In: []int{x}, F: []float64{0.1, 0.01, 0.5}[r.Intn(3)]}, mn > 1e-3
+	case 13:
+		if h.allowExpand && rank >= 1 && mx < 30 { // Softmax broadcasts its normaliser: gradient values are left to the twin run (known finding D9)
+			h.expands = true
+			return ref.Instr{Op: "softmax", In: []int{x}, Dim: r.Intn(rank)}, true
+		}
+	case 14:
+		if h.allowExpand && len(v.Data) <= 32 {
+			h.expands = true
+			return ref.Instr{Op: "broadcast", In: []int{x}, Shape: append([]int{2}, v.Shape...)}, true
+		}
+	case 15:
+		if rank >= 1 {
+			return ref.Instr{Op: "transpose", In: []int{x}}, rank >= 2
+		}
+	}
+	return ref.Instr{}, false
 }
 
 func runC08(c *fw.Ctx) {
